@@ -231,4 +231,48 @@ def prefix_idiom(ctx: Ctx, f, lst: str, nump: str, frame=None, env=None, _depth:
         if rv is None or nn is None:
             return None, "unrecognised slice"
         return (rv and nn), "list(reversed(running))[:max(num, 0)]" if rv and nn else "slice over the wrong order or with a possibly negative bound"
+    # positively wrong: the ids are enumerated arithmetically (range(...), id +/- k) instead of being drawn from the registry
+    arith = arithmetic_ids(ctx, frame, env, v)
+    if arith is not None:
+        return False, (f"the ids are computed arithmetically (`{arith}`), not drawn from the running registry: running ids have gaps after tasks ended or were "
+                       "cancelled individually, so counting ids down skips running tasks or spends the budget on tasks that are gone")
     return None, "unrecognised way of computing the id list"
+
+
+def arithmetic_ids(ctx: Ctx, frame, env, e: ast.AST, _depth: int = 0) -> Optional[str]:
+    """The text of a `range(...)` call that the id list's elements are drawn from (through comprehensions, list()/sorted()
+    wrappers, locals and the results of helpers spliced in), else None."""
+    from ..cfg import bind_args, strip_cast
+
+    if e is None or _depth > 6:
+        return None
+    e = strip_cast(e)
+    if isinstance(e, ast.Call) and isinstance(e.func, ast.Name) and e.func.id == "range":
+        return " ".join(ast.unparse(e).split())[:80]
+    if isinstance(e, (ast.ListComp, ast.SetComp, ast.GeneratorExp)):
+        for gen in e.generators:
+            r = arithmetic_ids(ctx, frame, env, gen.iter, _depth + 1)
+            if r:
+                return r
+        return None
+    if isinstance(e, ast.Call) and isinstance(e.func, ast.Name) and e.func.id in ("list", "tuple", "sorted", "reversed", "iter", "set") and e.args:
+        return arithmetic_ids(ctx, frame, env, e.args[0], _depth + 1)
+    if isinstance(e, ast.Subscript):
+        return arithmetic_ids(ctx, frame, env, e.value, _depth + 1)
+    if isinstance(e, ast.IfExp):
+        return arithmetic_ids(ctx, frame, env, e.body, _depth + 1) or arithmetic_ids(ctx, frame, env, e.orelse, _depth + 1)
+    if isinstance(e, ast.Name):
+        for b in ctx.vals.bindings(frame, e.id) or []:
+            r = arithmetic_ids(ctx, frame, env, b, _depth + 1)
+            if r:
+                return r
+        return None
+    if isinstance(e, ast.Call) and id(e) in ctx.an.spliced_at:
+        t = ctx.an.spliced_at[id(e)]
+        sub = bind_args(e, t, frame, env)
+        for r_ in ctx.an.scope(t)._own_nodes():
+            if isinstance(r_, ast.Return) and r_.value is not None:
+                r = arithmetic_ids(ctx, t, sub, r_.value, _depth + 1)
+                if r:
+                    return r
+    return None
